@@ -78,15 +78,19 @@ def pair? : Sexp → Option (Key × Key)
   | .list [n, a] => do some ((← key? n), (← key? a))
   | _ => none
 
-def trace (s : State Key Key) : List (Op Key Key) → List Sexp
+def act? : Sexp → Option (Act Key Key)
+  | .list [.atom "bok", self, .list es] => do some (.book (← key? self) (← es.mapM pair?))
+  | x => (op? x).map .op
+
+def trace (s : State Key Key) : List (Act Key Key) → List Sexp
   | [] => []
-  | op :: ops =>
-    let r := step s op
-    .list [outRes r.2, items r.1.n2a, items r.1.a2n] :: trace r.1 ops
+  | a :: as =>
+    let r := act s a
+    .list [outRes r.2, items r.1.n2a, items r.1.a2n] :: trace r.1 as
 
 def handle : Sexp → Sexp
   | .list [.atom "namer", .list es, .list ops] =>
-    match es.mapM pair?, ops.mapM op? with
+    match es.mapM pair?, ops.mapM act? with
     | some es, some ops =>
       match init (empty : State Key Key) es with
       | .error e => .list [tag "raise" [sym (exnName e)]]
